@@ -104,21 +104,29 @@ def inBox (sel : List AxisSel) (p : Nat) : Bool :=
 def inPicks (sel : List AxisSel) (p : Nat) : Bool :=
   sel.all fun s => s.2.2.contains (s.1.coord p - s.2.1.1)
 
+/-- `slices = [slice(None)] * self.ndim; slices[i] = k` (IndexError when the key has more entries than the
+map has dimensions) followed by `np.zeros(self.shape)[tuple(slices)] = True`: the positions picked on
+every axis, relative to the extent `ext` of the current data -/
+def pickAll (ks : List Ix) (ext : List (Nat × Nat)) : Except XErr (List (List Nat)) :=
+  if ks.length > ext.length then .error .tooManyIndices
+  else
+    ((ks ++ List.replicate (ext.length - ks.length) (Ix.slice none none none)).zip ext).mapM
+      fun ke => pick (ke.2.2 - ke.2.1) ke.1
+
 /-- slice / int / tuple branch of `__getitem__`, given the function `ds` that computes the extent of
 the current data (`_data_slices_from_coordinates`, called for `self.shape` and for `data_slices`) -/
 def getIdxWith (g : Grid) (ds : List Nat → Except XErr (List (Nat × Nat))) (m : Mask) (ks : List Ix) :
-    Except XErr Mask := do
-  let I := ids g.size m
-  -- `slices = [slice(None)] * self.ndim`  (`self.ndim` evaluates `self.shape`)
-  let ext ← ds I
-  -- `slices[i] = k` for every entry of the key
-  if ks.length > ext.length then throw .tooManyIndices
-  let full := ks ++ List.replicate (ext.length - ks.length) (Ix.slice none none none)
-  -- `new_is_in_data_slice = np.zeros(self.shape); new_is_in_data_slice[tuple(slices)] = True`
-  let picks ← (full.zip ext).mapM fun ke => pick (ke.2.2 - ke.2.1) ke.1
-  let sel : List AxisSel := g.axes.zip (ext.zip picks)
-  -- `new = self.is_in_data.reshape(orig).copy(); new[data_slices] &= new_is_in_data_slice`
-  pure fun p => if inBox sel p then m p && inPicks sel p else m p
+    Except XErr Mask :=
+  -- `self.ndim` evaluates `self.shape`, i.e. the extent of the current data
+  match ds (ids g.size m) with
+  | .error e => .error e
+  | .ok ext =>
+    match pickAll ks ext with
+    | .error e => .error e
+    | .ok picks =>
+      let sel : List AxisSel := g.axes.zip (ext.zip picks)
+      -- `new = self.is_in_data.reshape(orig).copy(); new[data_slices] &= new_is_in_data_slice`
+      .ok fun p => if inBox sel p then m p && inPicks sel p else m p
 
 def getIdx (g : Grid) (m : Mask) (ks : List Ix) : Except XErr Mask :=
   getIdxWith g (dataSlices g) m ks
@@ -167,7 +175,39 @@ def getItem (b : Base) (m : Mask) : Key → Except XErr Mask
 /-- a selection history: every key is applied to the result of the previous one -/
 def run (b : Base) (m : Mask) : List Key → Except XErr Mask
   | [] => .ok m
-  | k :: ks => do let m' ← getItem b m k; run b m' ks
+  | k :: ks => match getItem b m k with
+    | .error e => .error e
+    | .ok m' => run b m' ks
+
+/-! ### specification: a map *is* the finite set of its original point ids -/
+
+/-- does a tuple of phase-name keys select a point with phase id `q`? -/
+def nameSel (phases : PhaseList) (ks : List String) (q : Int) : Bool :=
+  ks.any fun k => phases.any fun e => if k == e.2.name then q == e.1 else isIndexedKw k && q != -1
+
+/-- `select S key`: the points of `S` the key picks, positions being taken relative to the bounding box
+of `S` (slices/ints), to the position in the ascending id list (boolean arrays), or through the phase id
+of the point (names) -/
+def specSelect (b : Base) (S : List Nat) : Key → Except XErr (List Nat)
+  | .idx ks =>
+    match dataSlices b.grid S with
+    | .error e => .error e
+    | .ok ext =>
+      match pickAll ks ext with
+      | .error e => .error e
+      | .ok picks => .ok (S.filter (inPicks (b.grid.axes.zip (ext.zip picks))))
+  | .mask key =>
+    if key.length = S.length then .ok (((S.zip key).filter (·.2)).map (·.1))
+    else match key with
+      | [v] => .ok (if v then S else [])
+      | _ => .error .shapeMismatch
+  | .names ks => .ok (S.filter fun p => nameSel b.phases ks (b.phaseId p))
+
+def specRun (b : Base) (S : List Nat) : List Key → Except XErr (List Nat)
+  | [] => .ok S
+  | k :: ks => match specSelect b S k with
+    | .error e => .error e
+    | .ok T => specRun b T ks
 
 /-! ### accessors -/
 
@@ -200,15 +240,17 @@ def spanX (g : Grid) (I : List Nat) : Except XErr (Nat × Nat) :=
 
 /-- `self.get_map_data(item, fill_value=fill)` for a per-point array: values in row-major order over the
 bounding box of the data (`none` = fill value) -/
-def mapData {β : Type} (g : Grid) (m : Mask) (arr : Nat → β) : Except XErr (List (Option β)) := do
-  if g.axes.isEmpty then throw .degenerate
-  let I := ids g.size m
-  let ry ← spanY g I
-  let rx ← spanX g I
-  pure <| (List.range (ry.2 - ry.1)).flatMap fun i =>
-    (List.range (rx.2 - rx.1)).map fun j =>
-      let p := (ry.1 + i) * g.nx + (rx.1 + j)
-      if m p then some (arr p) else none
+def mapData {β : Type} (g : Grid) (m : Mask) (arr : Nat → β) : Except XErr (List (Option β)) :=
+  if g.axes.isEmpty then .error .degenerate
+  else
+    match spanY g (ids g.size m), spanX g (ids g.size m) with
+    | .ok ry, .ok rx =>
+      .ok <| (List.range (ry.2 - ry.1)).flatMap fun i =>
+        (List.range (rx.2 - rx.1)).map fun j =>
+          let p := (ry.1 + i) * g.nx + (rx.1 + j)
+          if m p then some (arr p) else none
+    | .error e, _ => .error e
+    | _, .error e => .error e
 
 /-! ### coordinate layer: the same quantities computed from `x`, `y`, origin and step as the code does -/
 
@@ -266,11 +308,14 @@ def axisSliceC (all inData : List α) : Except XErr (Option (Int × Int)) :=
   | _, _ => .ok none
 
 /-- `self._data_slices_from_coordinates()` computed from coordinates -/
-def dataSlicesC (q : Geom α) (g : Grid) (I : List Nat) : Except XErr (List (Int × Int)) := do
+def dataSlicesC (q : Geom α) (g : Grid) (I : List Nat) : Except XErr (List (Int × Int)) :=
   let all := List.range g.size
-  let sy ← axisSliceC (all.map (yOf q g)) (I.map (yOf q g))
-  let sx ← axisSliceC (all.map (xOf q g)) (I.map (xOf q g))
-  pure (sy.toList ++ sx.toList)
+  match axisSliceC (all.map (yOf q g)) (I.map (yOf q g)) with
+  | .error e => .error e
+  | .ok sy =>
+    match axisSliceC (all.map (xOf q g)) (I.map (xOf q g)) with
+    | .error e => .error e
+    | .ok sx => .ok (sy.toList ++ sx.toList)
 
 def dataSlicesCN (q : Geom α) (g : Grid) (I : List Nat) : Except XErr (List (Nat × Nat)) :=
   (dataSlicesC q g I).map fun l => l.map fun e => (e.1.toNat, e.2.toNat)
@@ -459,5 +504,38 @@ def step (s : Sys) : Op → Sys × Option XErr
 def runOps (s : Sys) : List Op → Sys
   | [] => s
   | o :: os => runOps (step s o).1 os
+
+/-- the guard of property C12: assigned phase ids are `-1` or already in the phase list, a deleted
+phase is not in use by any point, and no added phase is called `not_indexed` -/
+def admissible (s : Sys) : Op → Bool
+  | .setPhaseId _ val =>
+    let okv := fun (v : Int) => v == -1 || (PhaseList.ids s.phases).contains v
+    (match val with
+     | .scalar v => okv v
+     | .array vs => vs.all okv)
+  | .plDel (.id i) => (List.range s.n).all fun p => s.phaseId p != i
+  | .plDel (.name nm) =>
+    (match s.phases.find? (fun e => e.2.name == nm) with
+     | some e => (List.range s.n).all fun p => s.phaseId p != e.1
+     | none => true)
+  | .plAdd ps => ps.all fun p => p.name != "not_indexed"
+  | _ => true
+
+def admissibleAll (s : Sys) : List Op → Bool
+  | [] => true
+  | o :: os => admissible s o && admissibleAll (step s o).1 os
+
+/-- the constructor with the repair proposed for finding C12-constructor-relinks-not-indexed:
+a `not_indexed` entry (id -1) of the caller's list is dropped before the reconciliation -/
+def initFixed (g : Grid) (pid : Nat → Int) (pl : Option PhaseList) (props : List (String × (Nat → Int)))
+    (mask : Mask) : Sys :=
+  init g pid (pl.map fun d => d.filter fun e => !(e.1 == -1)) props mask
+
+/-- `phases_in_data` with the repair proposed for finding C12-phases-in-data-id-by-name:
+a single phase keeps the id it was found under -/
+def phasesInDataFixed (s : Sys) (m : Mask) : Except XErr PhaseList :=
+  let present := uniqueSorted ((ids s.n m).map s.phaseId)
+  let common := present.filter fun i => (PhaseList.ids s.phases).contains i
+  PhaseList.getItem s.phases (.idList common)
 
 end Orix.XMap
